@@ -311,6 +311,11 @@ class SymAngleMax:
 
 
 def _max(a, *args, **k):
+    if active() and not args and not k and has_sym(a):
+        flat = list(np.asarray(a, dtype=object).flat)
+        if all(isinstance(x, (SymReal, int, float, np.floating, np.integer)) for x in flat):
+            _hit("max(array) -> If-term")
+            return _ifmin((flat,), False)
     if active() and not args and not k:
         try:
             items = list(a)
@@ -320,6 +325,15 @@ def _max(a, *args, **k):
             _hit("max(angles)")
             return SymAngleMax(items)
     return _wrap(np.max(a, *args, **k))
+
+
+def _min(a, *args, **k):
+    if active() and not args and not k and has_sym(a):
+        flat = list(np.asarray(a, dtype=object).flat)
+        if all(isinstance(x, (SymReal, int, float, np.floating, np.integer)) for x in flat):
+            _hit("min(array) -> If-term")
+            return _ifmin((flat,), True)
+    return _wrap(np.min(a, *args, **k))
 
 
 def _sign(x):
@@ -346,7 +360,7 @@ class NPProxy(types.ModuleType):
             "zeros": _zeros_like(0.0), "ones": _zeros_like(1.0), "empty": _empty, "array": _array,
             "count_nonzero": _count_nonzero, "gradient": _gradient, "mean": _mean,
             "any": _any, "all": _all, "isnan": _isnan, "around": _around, "round": _around,
-            "median": _median, "max": _max, "amax": _max,
+            "median": _median, "max": _max, "amax": _max, "min": _min, "amin": _min,
         }
         self.__dict__["linalg"] = _LinalgProxy()
         self.__dict__["_wrapped"] = {}
